@@ -64,7 +64,7 @@ fn write_err_ok(r: Result<simple_dns::Result<()>, Fail>, what: &str) -> Result<b
 }
 
 /// all writer configurations for one packet; `refp`/`refc` are the vector-returning outputs
-fn writers(pk: &Packet, refp: &[u8], refc: &[u8], k: usize, case: &mut Case, sweep_all: bool) -> Result<(), Fail> {
+pub fn writers(pk: &Packet, refp: &[u8], refc: &[u8], k: usize, case: &mut Case, sweep_all: bool) -> Result<(), Fail> {
     let mut n = 0u64;
     // --- Vec<u8> (Write only)
     {
